@@ -11,6 +11,11 @@ CHECKS = {
    text="Theorems for every block size, disk size and history: a read returns the last accepted write (zeros otherwise), writes touch one register, Size is constant, refusals are exactly out-of-range/wrong-size and change nothing; the MemDisk model (list of blocks, Go copy semantics) and the FileDisk model (flat byte file, pread/pwrite at a*bs with the uint64 wrap written in) both refine that spec, hence agree. Tied to the code by regenerated function bodies/consts/types of machine/disk and machine/async_disk (kernel-checked Examples) and by running generated histories with client-side buffer aliasing on MemDisk, FileDisk, the async_disk aliases and the global wrappers against the extracted models.",
    note="Trusts Coq kernel, extraction, srcextract, the OCaml/Go drivers, the kernel's pread/pwrite on tmpfs. Aliasing ('never retains caller memory') is observable only on the Go side and is carried by the differential run, not by a theorem. ReadTo with a non-block-sized buffer is outside the property's quantifier (MemDisk copies a prefix, FileDisk panics; both mirrored).",
    ref="DESIGN.md §5 C09"),
+ "C10": dict(
+   technique="Coq proof (generic single-lock linearizability theorem by invariant over all interleavings; MemDisk instance with byte-granular copies; refinement transfer to the register spec) + verified sound-and-complete history checker + per-run lock-shape obligations on regenerated skeletons + recorded concurrent histories + race detector",
+   text="Theorem (no bound on threads, operations or steps): any object whose operations run micro-steps between acquire/release of one mutex or RW-lock (readers pure; lock-free operations state-independent) is linearizable w.r.t. its atomic sequential object; instantiated for MemDisk with one micro-step per byte (torn blocks expressible) and transferred to the register-array spec of C09; a companion theorem shows a torn, non-linearizable read IS reachable without the lock. Per run, kernel-evaluated predicates on the skeletons regenerated from mem.go/file.go establish the assumed lock modes and coverage (RLock/Lock + deferred unlock bracket every element access, header immutable, method set, FileDisk stateless and positional). Histories recorded from the real MemDisk/FileDisk are judged by an extracted checker proved sound and complete; -race runs look for data races.",
+   note="partial for FileDisk: atomicity of one pread64/pwrite64 is the kernel's (only model-level commutation/real-time theorems); the sandbox offers little real parallelism (measured ~1.4 CPUs), so recorded histories overlap rarely and the static obligations + race detector carry most of the detection; Go memory model and race detector trusted. Linearizability is stated in its linearization-point form (Conc/Lin.v).",
+   ref="DESIGN.md §5 C10"),
  "C11": dict(
    technique="Coq proofs (open/ftruncate model for every prior image length; reopen refinement over all histories; verified checker `surfaces` for a fault semantics of regenerated statement skeletons) + per-run vm_compute obligations + reopen differential run + strace fault enumeration",
    text="Theorems: NewFileDisk on an image of any prior length (or none) yields exactly n blocks with retained bytes preserved and new bytes zero; after any history, Close and reopen with any size, every later history behaves as the register array holding the last values written (zeros beyond the old size); and for ANY method body accepted by the proved checker `surfaces`, every path on which a system call fails ends in a panic or returns the error (all inputs, all fault sequences, loops unbounded). Per run the checker is evaluated by the kernel on the skeletons regenerated from machine/disk/file.go, the bodies the open model mirrors are compared, reopen histories run on the real FileDisk against the extracted model, and each (scenario, failing syscall, errno, occurrence) is executed under strace injection plus closed-descriptor and /dev/full cases.",
